@@ -30,8 +30,9 @@ func ServeError(w http.ResponseWriter, err error) {
 }
 
 func isContentXML(h http.Header) bool {
-	t, _, _ := mime.ParseMediaType(h.Get("Content-Type"))
-	return t == "application/xml" || t == "text/xml"
+	// a media type followed by malformed parameters is no valid Content-Type
+	t, _, err := mime.ParseMediaType(h.Get("Content-Type"))
+	return err == nil && (t == "application/xml" || t == "text/xml")
 }
 
 func DecodeXMLRequest(r *http.Request, v interface{}) error {
